@@ -63,6 +63,12 @@ def run(session: dict, seams: typing.Any) -> typing.List[dict]:
             dry = k == "dry"
             allow = bool(step.get("allow_overwrite", True))
             omit = bool(step.get("omit_ser", False))
+            # one fault per call at most, placed by the scheduler relative to THIS call (counters restart with the call)
+            seams.fault = step.get("fault") if not dry else None
+            seams.fault_fired = None
+            seams.mut_count = 0
+            seams.wopen_count = 0
+            seams.writes_per_file = {}
             try:
                 which = step.get("which", "both")
                 if which in ("both", "support"):
@@ -73,6 +79,10 @@ def run(session: dict, seams: typing.Any) -> typing.List[dict]:
             except Exception as ex:  # pylint: disable=broad-except
                 rec["status"] = "exc:%s" % type(ex).__name__
                 rec["exc_msg"] = str(ex)[:300]
+            rec["fault_fired"] = seams.fault_fired
+            rec["mut_count"] = seams.mut_count
+            rec["writes_per_file"] = [seams.writes_per_file.get(i, 0) for i in range(seams.wopen_count)]
+            seams.fault = None
             rec["after"] = _snap(seams, out_dir)
         elif k == "list":
             try:
